@@ -6,7 +6,7 @@ ID = 'EXTCORR'
 COQ_PROPS = 'Ext/TableFacts.v'
 THEOREMS = ['tables_decode', 'classifications_eq', 'const_dests_eq', 'repeat_dests_eq', 'preserving_eq', 'copy_dests_eq',
             'preserving_none_is_pref_order', 'preserving_increasing', 'preserving_transitive', 'const_tests_ordered',
-            'class_valid_ok', 'meta_valid_atol_eq']
+            'class_valid_ok', 'meta_valid_atol_nonneg']
 ALLOWED_AXIOMS = []
 TRUSTED_BASE = ['coq/Ext/Model.v (hand model)']
 ASSUMPTIONS = ['see props/extlib.py']
